@@ -25,7 +25,7 @@ func TestVerifC10ManifestMalformed(t *testing.T) {
 		toks := strings.Split(lines[li], " ")
 		nblk := len(m.Streams[li].Blocks)
 		fileIdx := 1 + nblk + rapid.IntRange(0, len(toks)-nblk-2).Draw(t, "fileIdx")
-		kind = rapid.SampledFrom([]string{"arbitrary-bytes", "no-locators", "no-file-tokens", "non-numeric-pos", "non-numeric-size", "past-end", "locator-without-size", "bad-stream-name", "drop-token", "dup-token", "swap-tokens", "change-char", "huge-number", "wraparound"}).Draw(t, "kind")
+		kind = rapid.SampledFrom([]string{"arbitrary-bytes", "no-locators", "no-file-tokens", "non-numeric-pos", "non-numeric-size", "past-end", "empty-past-end", "locator-without-size", "bad-stream-name", "drop-token", "dup-token", "swap-tokens", "change-char", "huge-number", "wraparound"}).Draw(t, "kind")
 		switch kind {
 		case "arbitrary-bytes":
 			alphabet := []rune(" \n:+\\/.0123456789abcdef-x\x00é")
@@ -58,6 +58,11 @@ func TestVerifC10ManifestMalformed(t *testing.T) {
 		case "past-end":
 			p := strings.SplitN(toks[fileIdx], ":", 3)
 			toks[fileIdx] = fmt.Sprintf("%d:%d:%s", m.Streams[li].Len(), 1+rapid.IntRange(0, 5).Draw(t, "by"), p[2])
+			mustReject = true
+		case "empty-past-end":
+			// a zero-length file token that starts beyond the end of the stream
+			p := strings.SplitN(toks[fileIdx], ":", 3)
+			toks[fileIdx] = fmt.Sprintf("%d:0:%s", m.Streams[li].Len()+1+int64(rapid.IntRange(0, 100).Draw(t, "by")), p[2])
 			mustReject = true
 		case "locator-without-size":
 			toks[1] = toks[1][:32]
